@@ -45,7 +45,7 @@ def run(tier):
                    'covering every escape class / UTF-8 length / plane boundary, short-string capacity lengths, arrays and objects incl. nesting and keys needing '
                    'escapes) x option vectors (every option one at a time from the defaults + 30/120 mixed vectors over pretty, indent size/char, '
                    'spaces_around_colon/comma, padding, five line-split options x three kinds, line_length_limit, new_line_chars, escape_all_non_ascii, '
-                   'escape_solidus) x json/ojson; one trace line per (value, options, flavour)')
+                   'escape_solidus) x json / ojson / wjson / wojson (the wchar_t instantiations, one wchar_t per code point; the wide text is recorded as its UTF-8 encoding); one trace line per (value, options, flavour)')
     cov['bounds'] = open(os.path.join(vf.SPEC, CFG[tier])).read().split('CONSTANTS')[1].split()
     cov['samples'] = [json.loads(lines[0]), json.loads(lines[len(lines) // 2])] if lines else []
     rep.assumptions += ['char only (wchar_t output is not lexed by the byte-oriented JsonText machine)',
